@@ -7,6 +7,7 @@ import (
 	"fmt"
 	"strings"
 	"sync"
+	"time"
 )
 
 // Event kinds. Rule R1 (DESIGN §3): an event that PERMITS something is appended
@@ -50,6 +51,7 @@ type Event struct {
 	Info  string `json:"info,omitempty"`
 	Snap  int    `json:"snap,omitempty"`
 	Gen   string `json:"gen,omitempty"` // processor generation stamps seen on a written record
+	T     int64  `json:"t,omitempty"`   // nanoseconds since the log was created (only used for lower bounds, R3)
 }
 
 func (e Event) String() string {
@@ -88,19 +90,21 @@ func (e Event) String() string {
 // Log is the append-only global history.
 type Log struct {
 	mu     sync.Mutex
+	start  time.Time
 	events []Event
 	// activity is bumped on every append; the scheduler uses it for its
 	// quiescence detection.
 	activity uint64
 }
 
-func NewLog() *Log { return &Log{} }
+func NewLog() *Log { return &Log{start: time.Now()} }
 
 // Add appends e and returns its index.
 func (l *Log) Add(e Event) int {
 	l.mu.Lock()
 	defer l.mu.Unlock()
 	e.I = len(l.events)
+	e.T = int64(time.Since(l.start))
 	l.events = append(l.events, e)
 	l.activity++
 	return e.I
